@@ -411,7 +411,7 @@ class QGen:
             return self.pick(nums)
         if k == "method":
             txt, cls = self.pick(objs)
-            ms = [m for m in self.s.classes[cls].methods if (m.kind == "num" and m.ctype != "bool" and not m.enum and not m.tree_type) or (m.kind == "echo" and self.f.echo and m.echo in ("id", "scaled", "enum10") and m.args[0] != "bool")]
+            ms = [m for m in self.s.classes[cls].methods if (m.kind == "num" and m.ctype != "bool" and not m.enum and not m.tree_type) or (m.kind == "echo" and self.f.echo and m.echo in ("id", "scaled", "enum10", "mix") and m.args[0] != "bool")]
             tt = [m for m in self.s.classes[cls].methods if m.kind == "num" and m.tree_type and not m.enum and m.ctype in ("int", "float", "double")]
             if tt and self.chance(1, 6):
                 # a method with a declared tree type, inside arithmetic: the tree type belongs to the method's own leaf, not to what is computed from it
@@ -421,11 +421,44 @@ class QGen:
                 return (form.format(x=f"{txt}.{m.name}()"), m.ctype)
             if ms:
                 m = self.pick(ms)
+                two = [x for x in ms if x.kind == "echo" and x.echo == "mix"]
+                if two and not self._in_arg and self.chance(1, 3):
+                    m = two[0]
                 if m.kind == "num":
                     if m.member:
                         return (f"{txt}.{m.name}", m.ctype if m.typed else "double")
                     return (f"{txt}.{m.name}()", m.ctype if m.typed else "double")
                 self.labels.add("method-with-arg")
+                if m.echo == "mix":
+                    # two arguments: one computed in a block of its own (First() of a vector, an aggregate), the other at hand - in either order
+                    deep = None
+                    vms_ = [x for x in self.s.classes[cls].methods if x.kind == "vec"]
+                    nms_ = [x for x in self.s.classes[cls].methods if x.kind == "num" and not x.enum and not x.tree_type and not x.member and x.ctype != "bool"]
+                    if vms_ and nms_ and not self._in_arg and self.chance(2, 3):
+                        # ... the deep one coded inside a loop over a vector of this very object, the other a plain method of the object
+                        vm_ = self.pick(vms_)
+                        if self.f.first and not self.safe and self.chance(2, 3):
+                            deep = f"{txt}.{vm_.name}().First()"
+                            self.labels.add("First")
+                        else:
+                            deep = f"{txt}.{vm_.name}().Sum()"
+                            self.labels.add("Sum")
+                        flat_ = f"{txt}.{self.pick(nms_).name}()"
+                        self.labels.add("method-with-two-args")
+                        a0, a1 = (deep, flat_) if self.chance(2, 3) else (flat_, deep)
+                        return (f"{txt}.{m.name}({a0}, {a1})", "double")
+                    if not self.safe and not self._in_arg:
+                        self._in_arg = True
+                        try:
+                            deep, _k = self.num(scope, 1)
+                        finally:
+                            self._in_arg = False
+                    flat_, _k2 = self.num_leaf(scope) if not self._in_arg else (self.lit_dbl(), "double")
+                    if deep is None:
+                        deep = self.lit_dbl()
+                    self.labels.add("method-with-two-args")
+                    a0, a1 = (deep, flat_) if self.chance(1, 2) else (flat_, deep)
+                    return (f"{txt}.{m.name}({a0}, {a1})", "double")
                 if m.args[0].startswith("enum:"):
                     e = self.s.enum(m.args[0][5:])
                     self.labels.add("enum-argument")
